@@ -7,7 +7,8 @@ From PTK Require Import Lib.Sx Lib.Py Model.Document Model.BufferEdit Proofs.Buf
   Proofs.BufferEditLines Proofs.BufferEditIndent Model.C02_DocQueries Model.C01_CaseWord
   Proofs.C01_CaseWordFacts Proofs.C01_LastLine Proofs.C01_Audit
   Lib.PyLines Gen.C01_CaseMap Model.C01_CaseMap Model.C01_Views
-  Proofs.C01_Exact Proofs.C01_ViewsFacts Proofs.C01_CaseMapFacts.
+  Proofs.C01_Exact Proofs.C01_ViewsFacts Proofs.C01_CaseMapFacts
+  Model.C08_ViOps Model.C01_Reshape Proofs.C01_Round7 Proofs.C01_ReshapeFacts.
 Import ListNotations.
 Open Scope Z_scope.
 
@@ -401,7 +402,7 @@ Print Assumptions C01_splitlines_chars.
    operation (edits, case commands, go_to_history) keeps it; so does every
    finite sequence. *)
 Theorem C01_stored_initial : forall ls i c,
-  0 <= i < len ls -> 0 <= c <= len (w_text (mkw ls i c [] [])) -> WInv (mkw ls i c [] []).
+  0 <= i < len ls -> 0 <= c <= len (w_text (mkw ls i c [] [] [])) -> WInv (mkw ls i c [] [] []).
 Proof. exact winv_initial. Qed.
 Print Assumptions C01_stored_initial.
 
@@ -444,8 +445,9 @@ Print Assumptions C01_goto_frame.
    invariant state; looking does not change text, index or cursor. *)
 Theorem C01_views_stored : forall w,
   WInv w ->
-  let '((d, ls), w') := w_observe w in
+  let '((d, ls, ix), w') := w_observe w in
   d = mkdoc (w_text w) (wcur w) /\ ls = split_on NL (w_text w) /\
+  ix = line_start_indexes (mkdoc (w_text w) (wcur w)) /\
   join [NL] ls = w_text w /\
   text_before_cursor d ++ text_after_cursor d = w_text w /\
   wlines w' = wlines w /\ widx w' = widx w /\ wcur w' = wcur w /\ WInv w'.
@@ -455,8 +457,9 @@ Print Assumptions C01_views_stored.
 Theorem C01_views_stored_after_history : forall ops w,
   WInv w ->
   let w1 := wsteps w ops in
-  let '((d, ls), _) := w_observe w1 in
+  let '((d, ls, ix), _) := w_observe w1 in
   dtext d = w_text w1 /\ dcur d = wcur w1 /\ join [NL] ls = w_text w1 /\
+  ix = line_start_indexes (mkdoc (w_text w1) (wcur w1)) /\
   text_before_cursor d ++ text_after_cursor d = w_text w1 /\
   0 <= wcur w1 <= len (w_text w1).
 Proof. exact w_views_after_history. Qed.
@@ -485,6 +488,67 @@ Theorem C01_casemap_examples :
   py_lower [913; 931; 913] = [945; 963; 945].
 Proof. exact (conj upper_sharp_s (conj lower_final_sigma lower_medial_sigma)). Qed.
 Print Assumptions C01_casemap_examples.
+
+(* ---- Round 7 ---------------------------------------------------------- *)
+(* The copied margin is EXACTLY the leading blanks of the cursor's line: the
+   maximal prefix of blanks (the whole line when it is all blanks). *)
+Theorem C01_margin_exact : forall b pre line post,
+  line_split b pre line post ->
+  let m := leading_whitespace_in_current_line (bdoc b) in
+  line = m ++ lstrip_by is_space line /\ forallb is_space m = true /\
+  (lstrip_by is_space line = [] \/
+   exists x r, lstrip_by is_space line = x :: r /\ is_space x = false).
+Proof. exact margin_exact. Qed.
+Print Assumptions C01_margin_exact.
+
+(* [margin b cm]: that margin with copy_margin, nothing without. *)
+Theorem C01_newline_exact : forall b cm,
+  Inv b ->
+  newline b cm =
+  Ok (mkbuf (firstn (Z.to_nat (bcur b)) (btext b) ++ NL :: margin b cm
+             ++ skipn (Z.to_nat (bcur b)) (btext b))
+            (bcur b + 1 + len (margin b cm))) [].
+Proof. exact newline_exact. Qed.
+Print Assumptions C01_newline_exact.
+
+Theorem C01_insert_line_above_exact : forall b cm pre line post,
+  Inv b -> line_split b pre line post ->
+  insert_line_above b cm =
+  Ok (mkbuf (pre ++ margin b cm ++ NL :: line ++ post) (len pre + len (margin b cm))) [].
+Proof. exact insert_line_above_exact. Qed.
+Print Assumptions C01_insert_line_above_exact.
+
+Theorem C01_insert_line_below_exact : forall b cm pre line post,
+  Inv b -> line_split b pre line post ->
+  insert_line_below b cm =
+  Ok (mkbuf (pre ++ line ++ NL :: margin b cm ++ post)
+            (len pre + len line + 1 + len (margin b cm))) [].
+Proof. exact insert_line_below_exact. Qed.
+Print Assumptions C01_insert_line_below_exact.
+
+(* reshape_text (Vi gq): the lines with their boundaries (str.splitlines(True),
+   every boundary) reassemble to the text; the rows before from_row and after
+   to_row are untouched; the call never fails; the addressed rows are replaced
+   by a text ending in one line ending and the cursor ends behind it; an empty
+   row range changes nothing. *)
+Theorem C01_reshape_lossless : forall s, concat (splitlines_keepends s) = s.
+Proof. exact splitlines_keepends_concat. Qed.
+Print Assumptions C01_reshape_lossless.
+
+Theorem C01_reshape_frame : forall b a e tw,
+  0 <= a -> a <= e ->
+  let ls := splitlines_keepends (btext b) in
+  let before := firstn (Z.to_nat a) ls in
+  let mid := firstn (Z.to_nat (e + 1 - a)) (skipn (Z.to_nat a) ls) in
+  let after := skipn (Z.to_nat (e + 1)) ls in
+  btext b = concat before ++ concat mid ++ concat after /\
+  (mid = [] -> reshape_text_w b a e tw = Ok b []) /\
+  (mid <> [] -> exists R,
+     reshape_text_w b a e tw =
+       Ok (mkbuf (concat before ++ R ++ concat after) (len (concat before ++ R))) [] /\
+     exists R0, R = R0 ++ [NL]).
+Proof. exact reshape_frame. Qed.
+Print Assumptions C01_reshape_frame.
 
 (* The invariant for the extended operation set (BufferEdit's operations plus
    the case commands with any repeat count) and every finite sequence. *)
